@@ -313,6 +313,41 @@ fn numbers_family(rep: &mut Report, tier: Tier) {
             }
         }
     }
+    // positional family: short digit strings at every decimal magnitude from 1e-15 to 1e25,
+    // written without an exponent (the notation thresholds 1e-6 and 1e21 from the positional side)
+    let mut heads: Vec<String> = Vec::new();
+    for a in ["1", "2", "5", "9"] {
+        heads.push(a.to_string());
+        for b in ["0", "1", "5", "9"] {
+            heads.push(format!("{a}{b}"));
+            for c in ["1", "3", "9"] {
+                heads.push(format!("{a}{b}{c}"));
+            }
+        }
+    }
+    for d in &heads {
+        for shift in -15i32..=25 {
+            // value = d * 10^shift, positional
+            let text = if shift >= 0 {
+                format!("{d}{}", "0".repeat(shift as usize))
+            } else {
+                let k = (-shift) as usize;
+                if d.len() > k {
+                    let (x, y) = d.split_at(d.len() - k);
+                    format!("{x}.{y}")
+                } else {
+                    format!("0.{}{d}", "0".repeat(k - d.len()))
+                }
+            };
+            specials.push(text.clone());
+            specials.push(format!("-{text}"));
+            if !text.contains('.') {
+                specials.push(format!("{text}.0"));
+            } else {
+                specials.push(format!("{text}0"));
+            }
+        }
+    }
     for s in &specials {
         number_case(s, &mut t);
         t.nontrivial(s);
